@@ -867,6 +867,13 @@ class BaseInterpreter(Generic[TContext, TEvent]):
                 f"{type(snapshot).__name__}."
             )
 
+        # 🧱 Validate the shape before touching anything. A snapshot comes
+        #    back from storage, so truncation and schema drift are ordinary
+        #    runtime conditions; without this a missing or wrong-typed key
+        #    surfaced as a raw KeyError / TypeError / AttributeError from the
+        #    code below, or was accepted and produced a nonsensical actor.
+        cls._validate_snapshot_shape(snapshot)
+
         # 🧪 Create a new instance of the correct interpreter class (sync/async)
         interpreter = cls(machine)
         interpreter.context = snapshot["context"]
@@ -911,11 +918,15 @@ class BaseInterpreter(Generic[TContext, TEvent]):
         # 🕰️ Restore remembered history so a later transition to a history
         #    state still resolves after a restart.
         for parent_id, node_ids in (snapshot.get("history") or {}).items():
-            nodes = [
-                machine.get_state_by_id(nid)
-                for nid in node_ids
-                if machine.get_state_by_id(nid)
-            ]
+            nodes = []
+            for nid in node_ids:
+                node = machine.get_state_by_id(nid)
+                if node is None:
+                    # 🚫 Same contract as the configuration above: a snapshot
+                    #    naming a state this machine does not have is rejected,
+                    #    not silently restored with part of its history gone.
+                    raise StateNotFoundError(target=nid)
+                nodes.append(node)
             if nodes:
                 interpreter._history[parent_id] = nodes
 
@@ -956,6 +967,72 @@ class BaseInterpreter(Generic[TContext, TEvent]):
             interpreter.status,
         )
         return interpreter
+
+    _SNAPSHOT_STATUSES = ("uninitialized", "running", "done", "error", "stopped")
+
+    @classmethod
+    def _validate_snapshot_shape(cls, snapshot: Dict[str, Any]) -> None:
+        """Checks that a decoded snapshot has the shape `from_snapshot` relies on.
+
+        Args:
+            snapshot (Dict[str, Any]): The decoded snapshot object.
+
+        Raises:
+            InvalidConfigError: If a required key is missing or a value has
+                the wrong type.
+        """
+
+        def fail(problem: str) -> None:
+            raise InvalidConfigError(f"Snapshot is malformed: {problem}.")
+
+        def is_str_list(value: Any) -> bool:
+            return isinstance(value, list) and all(
+                isinstance(item, str) for item in value
+            )
+
+        if snapshot.get("status") not in cls._SNAPSHOT_STATUSES:
+            fail(
+                f"'status' must be one of {cls._SNAPSHOT_STATUSES}, got "
+                f"{snapshot.get('status')!r}"
+            )
+        if not isinstance(snapshot.get("context"), dict):
+            fail("'context' must be an object")
+        has_configuration = snapshot.get("configuration") is not None
+        if has_configuration and not is_str_list(snapshot["configuration"]):
+            fail("'configuration' must be a list of state ids")
+        if "state_ids" in snapshot and not is_str_list(snapshot["state_ids"]):
+            fail("'state_ids' must be a list of state ids")
+        if not has_configuration and "state_ids" not in snapshot:
+            fail("one of 'configuration' or 'state_ids' is required")
+        history = snapshot.get("history")
+        if history is not None and not (
+            isinstance(history, dict)
+            and all(
+                isinstance(key, str) and is_str_list(ids)
+                for key, ids in history.items()
+            )
+        ):
+            fail("'history' must map state ids to lists of state ids")
+        actors = snapshot.get("actors")
+        if actors is not None and not (
+            isinstance(actors, dict)
+            and all(
+                isinstance(record, dict)
+                and isinstance(record.get("snapshot"), dict)
+                and isinstance(record.get("src"), (str, type(None)))
+                for record in actors.values()
+            )
+        ):
+            fail("'actors' must map actor ids to {src, snapshot} records")
+        system = snapshot.get("system")
+        if system is not None and not (
+            isinstance(system, dict)
+            and all(isinstance(actor_id, str) for actor_id in system.values())
+        ):
+            fail("'system' must map system ids to actor ids")
+        error = snapshot.get("error")
+        if error is not None and not isinstance(error, str):
+            fail("'error' must be a string or null")
 
     # -------------------------------------------------------------------------
     # 📝 Abstract Methods (Template Method Hooks for Subclasses)
